@@ -175,6 +175,20 @@ def run_case(case, acc):
                 kw = {'version': v, 'error': lvl, 'mode': mode, 'boost_error': False, 'mask': k}
                 qr = segno.make(content, **kw)
                 m = qr.matrix
+                # the same request through the other entry points and spellings of the mask gives the same symbol
+                if T.is_micro(v) or v <= 3 or v in (7, 27):
+                    for name, fn, kw2 in (('make_micro' if T.is_micro(v) else 'make_qr', segno.make_micro if T.is_micro(v) else segno.make_qr, kw),
+                                          ('make(mask=str)', segno.make, dict(kw, mask=str(k))),
+                                          ('make(version omitted)', segno.make, dict({x: y for x, y in kw.items() if x != 'version'}, micro=T.is_micro(v)))):
+                        try:
+                            q2 = fn(content, **kw2)
+                        except Exception as e:
+                            acc.violation('requested-mask-entry/%s' % name.split('(')[0], '%s(mask=%r) for %s-%s raised %s' % (name, k, v, lvl, C.exc_name(e)), case)
+                            continue
+                        acc.count('entries')
+                        if name != 'make(version omitted)' and q2.matrix != m or C.D.read_format(q2.matrix)[2] != k or q2.mask != k:
+                            acc.violation('requested-mask-entry/%s' % name.split('(')[0], '%s with mask=%r for %s-%s gives a symbol with mask %r / format information %r%s'
+                                          % (name, k, v, lvl, q2.mask, C.D.read_format(q2.matrix)[2], '' if q2.matrix == m else ', not the symbol make() returns'), case)
                 fv, fl, fm, fw = C.D.read_format(m)
                 acc.eval(('req', v, lvl, mode, k), nontrivial=True, outcome=(fm,), state=(v, lvl, k))
                 acc.count('requested')
